@@ -337,6 +337,45 @@ Theorem flat_id_injective : forall g x y z x' y' z',
 Proof. exact SplitP.flat_id_injective. Qed.
 Print Assumptions flat_id_injective.
 
+(** Work partition of the benchmarks that split their own work over discrete
+    GPUs.  For EVERY number of items n >= 0 and EVERY number of GPUs g >= 1 —
+    including n < g, where some GPUs get nothing — the slices are consecutive,
+    start at 0 and end at n: concatenated they are exactly 0..n-1 in order, so
+    they are disjoint and cover [0,n) (a list equal to [upto n] has no
+    duplicates).  [bal_slice]: fir, relu ([i*n/g, (i+1)*n/g)); [ceil_slice]:
+    matrixtranspose (ceil(n/g) work-group columns per GPU).  The check ties
+    them to the code by comparing [Bench.launches] with the kernel launches the
+    real benchmarks make (observed on the driver's GPU port) for sizes 1, 2,
+    3, 5, 7, g*k-1, g*k+1 on 2, 3, 4 GPUs; the position of each slice (kernel
+    argument offset) is validated by the byte-for-byte comparison of all
+    device buffers with the 1-GPU run. *)
+Open Scope N_scope.
+Theorem bench_balanced_partition : forall n g,
+  1 <= g ->
+  flat_map Bench.cells (Bench.slices (Bench.bal_slice n g) g) = Pages.upto n /\
+  (forall i, i < g -> fst (Bench.bal_slice n g i) + snd (Bench.bal_slice n g i) =
+                      fst (Bench.bal_slice n g (i + 1))) /\
+  fst (Bench.bal_slice n g 0) = 0 /\ fst (Bench.bal_slice n g g) = n.
+Proof. exact BenchP.balanced_partition_proof. Qed.
+Print Assumptions bench_balanced_partition.
+
+Theorem bench_ceil_partition : forall n g,
+  1 <= g -> flat_map Bench.cells (Bench.slices (Bench.ceil_slice n g) g) = Pages.upto n.
+Proof. exact BenchP.ceil_partition_proof. Qed.
+Print Assumptions bench_ceil_partition.
+
+Theorem partition_exactly_once : forall n, NoDup (Pages.upto n).
+Proof. exact BenchP.upto_nodup. Qed.
+Print Assumptions partition_exactly_once.
+
+Example bench_fewer_items_than_gpus :
+  Bench.slices (Bench.bal_slice 2 4) 4 = [(0, 0); (0, 1); (1, 0); (1, 1)] /\
+  Bench.launches (Bench.bal_slice 2 4) 4 = [(2, 1); (4, 1)] /\
+  Bench.launches (Bench.ceil_slice 3 4) 4 = [(1, 1); (2, 1); (3, 1)] /\
+  Bench.launches (Bench.ceil_slice 6 4) 4 = [(1, 2); (2, 2); (3, 2)].
+Proof. vm_compute. repeat split; reflexivity. Qed.
+Open Scope Z_scope.
+
 (** The RDMA address table of the timing platform, [CPU; GPU 1; ...; GPU n]
     with banks of the DRAM size B, against the physical ranges the driver
     assigns (device k owns [k*B + ps, (k+1)*B + ps), ps = page size, because
